@@ -431,3 +431,9 @@ def run(ck, F, tier):
     d_candidates(ck, F)
     e_median(ck, F)
     f_zero_neighbours(ck, F)
+    # which bits are the differentials: MVD x then y from Table 14 (or the UMV code with PLUSPTYPE), for the types Table 9 gives vectors to
+    from . import mblayer
+    from ..report import Scoped
+    s = Scoped(ck, 'MB.')
+    mblayer.rule_p(s, F)
+    mblayer.rule_syntax(s, F, ['macroblock', 'mv'])
